@@ -48,12 +48,13 @@ fn(O + "__getitem__", types={"key": "int"},
 fn(O + "__iter__", returns="seq", ensures=[f"result == {L}"], modifies=[], **COMMON)
 
 # update(*iterables): one iterable, as a list (with duplicates) or as a set (arbitrary order)
-UPD_INV = {1: [f"{L} == addall({OL}, prefix(seq(iterable), _i))", "no_dups(self._list)",
+UPD_INV = {1: [f"{L} == addall(entry({L}), prefix(seq(iterable), _i))", "no_dups(self._list)",
                "all(x in self for x in self._list)", "all(x in self._list for x in self)"]}
 fn(O + "update", returns="none",
-   variants=[dict(name="list", types={"iterables": "args:list", "iterable": "list"}),
+   variants=[dict(name="list", types={"iterables": "args:list", "iterable": "list"}, requires=["iterables[0] is not self._list"]),
              dict(name="set", types={"iterables": "args:set", "iterable": "set"}),
-             dict(name="two-lists", types={"iterables": "args:list,list", "iterable": "list"})],
+             dict(name="two-lists", types={"iterables": "args:list,list", "iterable": "list"},
+                  requires=["iterables[0] is not self._list", "iterables[1] is not self._list"])],
    invariant=UPD_INV,
    ensures=[f"implies(len(iterables) == 1, {L} == addall({OL}, seq(iterables[0])))",
             f"implies(len(iterables) == 2, {L} == addall(addall({OL}, seq(iterables[0])), seq(iterables[1])))"],
@@ -90,7 +91,7 @@ fn(O + "difference_update", returns="none",
 fn(O + "__isub__", returns="OrderedSet", types={"other": "set"},
    ensures=["result is self", f"{L} == filt(lambda a: a not in other, {OL})"], modifies=MOD, **COMMON)
 
-SYM = f"cat(filt(lambda a: a not in other, {OL}), addall([], filt(lambda a: a not in {OL}, seq(other))))"
+SYM = f"addall(filt(lambda a: a not in other, {OL}), filt(lambda a: a not in {OL}, seq(other)))"
 fn(O + "symmetric_difference", returns="OrderedSet", fresh_result=True, types={"other_set": "set", "collection": "list"},
    variants=[dict(name="set", types={"other": "set", "collection": "set"}), dict(name="list", types={"other": "list"})],
    ensures=[f"contents(result._list) == {SYM}", f"{L} == {OL}"], modifies=[], harness="orderedset.symmetric_difference", **COMMON)
